@@ -3,6 +3,6 @@ CONSTANTS
   MaxD = 7
   MaxSteps = 70
   NLabels = 3
-  NPlain = 10
+  NPlain = 6
 INVARIANT Emit
 CHECK_DEADLOCK FALSE
